@@ -758,6 +758,43 @@ fn fault_run(h: &History, root: &Path, j: u64, errno: i32, rec: &Recorded, res: 
                         let mut n = prev.clone();
                         model::apply_op(&mut n, h, i, op);
                         next = Some(n);
+                    } else if matches!(op, Op::Flush | Op::Compact | Op::CompactMany { .. }) {
+                        // The failure hit background work (the flush or a compaction thread
+                        // returned the error).  Clients that have not been told anything keep
+                        // writing: the next few client writes of the history are issued, and each
+                        // one that is acknowledged has to be there after the reopen like any
+                        // other.  (With a flush that failed half way this is the state with two
+                        // logs that both hold data.)
+                        let mut more = 0;
+                        for (i2, op2) in h.ops.iter().enumerate().skip(i + 1) {
+                            if !op2.is_client_write() {
+                                continue;
+                            }
+                            ex.cur_op = i2;
+                            match catch_unwind(AssertUnwindSafe(|| ex.debug_exec_no_model(i2, op2))) {
+                                Ok(Ok(())) => {
+                                    model::apply_op(&mut prev, h, i2, op2);
+                                    more += 1;
+                                    *res.fault_outcomes.entry("write-acknowledged-after-failed-background-step".into()).or_insert(0) += 1;
+                                }
+                                Ok(Err(_)) => {
+                                    *res.fault_outcomes.entry("write-refused-after-failed-background-step".into()).or_insert(0) += 1;
+                                    break;
+                                }
+                                Err(_) => {
+                                    let p = exec::take_panic();
+                                    v(
+                                        format!("panic-under-io-error:{}-after-failed-{}:{}", op2.kind(), op.kind(), panic_class(&p)),
+                                        format!("{} after a failed {}: {p}", op2.kind(), op.kind()),
+                                    );
+                                    alive = false;
+                                    break;
+                                }
+                            }
+                            if more >= 3 {
+                                break;
+                            }
+                        }
                     }
                     break;
                 }
@@ -821,8 +858,14 @@ fn fault_run(h: &History, root: &Path, j: u64, errno: i32, rec: &Recorded, res: 
                 let p = exec::take_panic();
                 v(format!("reopen-panicked-after-io-error:{}", panic_class(&p)), p);
             }
-            Ok(Err(_)) => {
+            Ok(Err(e)) => {
+                // The fault is gone and the directory is what a crash after the failed call
+                // would have left: reopening it must not need repair.
                 *res.fault_outcomes.entry("clean-reopen-failed-with-explicit-error".into()).or_insert(0) += 1;
+                v(
+                    format!("reopen-failed-after-io-error:{}", err_class(&e)),
+                    format!("after {ename} at call {j} the store was closed; a clean reopen fails: {e}"),
+                );
             }
             Ok(Ok(())) => match catch_unwind(AssertUnwindSafe(|| observe(&ex2))) {
                 Ok(Ok(obs)) => {
